@@ -11,6 +11,10 @@ list of its children (unbounded), each child reduced to (tag, namespace, flag). 
 client does with it when the extensions `exts` are installed in that order; `.sent` are the IQ
 result/error stanzas it sends.  `answeredRight s sent` is the property text for one stanza:
 get/set ⇒ `sent` is exactly one reply with the same id that reaches the sender; result/error ⇒ `sent = []`.
+
+History: before repo commits 28afc7a, 318b7cf, 1833c1a, 29beb7d, 88fc5c1, daa6e10, 7916dee, e597fe7, af7bef7 nine
+managers swallowed requests or answered responses; the model then proved `¬ FullC08` at 37 witness cells, which are
+kept as the first sequence of the harness corpus (harness/cxx/iqreply.cpp) with their oracle keys.
 -/
 namespace Qx.C08
 
@@ -46,195 +50,52 @@ theorem response_never_answered (exts : List Row) (s : Stanza)
     List.isEmpty_iff] at h
   simp [replies, h]
 
-/-! ## 2. The rows: which bundled managers are good, and exactly where the others are not -/
+/-! ## 2. The bundled managers: every row is good, hence C08 holds for every installation -/
 
-/- `defectiveMgrs` (model file) = [vcard, roster, archive, bookmark, mam, registration, rpc, transfer, uploadRequest]:
-   the managers whose `handleStanza` today has at least one cell where it is not good. -/
+/-- Every bundled manager's handler (31 classes; blocking with and without a blocklist, MUC with and without a
+matching room) is good at EVERY stanza, any number of children: a get/set is either answered by it with
+exactly one proper reply or passed on without sending anything; nothing is sent for a result/error. -/
+theorem every_row_good (m : Mgr) (s : Stanza) : (rowOf m).good s = true := row_good m s
 
-/-- **Exact row table.** For every bundled manager and EVERY stanza (any number of children): the
-manager's handler is good at the stanza if and only if the stanza is not one of the manager's listed
-defect cells (`defectCell`, spelled out in the model file). -/
-theorem row_good_iff_not_defect (m : Mgr) (s : Stanza) :
-    (rowOf m).good s = true ↔ (rowOf m).defect s = false := by
-  rw [good_iff_not_defect]; cases (rowOf m).defect s <;> simp
+/-- **C08.** For every set of bundled managers, in every registration order and multiplicity, and every
+incoming IQ (any payload, sender, id; from the stream or decrypted): a get/set gets exactly one reply,
+carrying the request's id and addressed so that it reaches the sender (feature-not-implemented from the
+fallback when no extension claims it); a result/error gets no reply at all. -/
+theorem C08_holds (ms : List Mgr) (s : Stanza) :
+    answeredRight s (dispatch (ms.map rowOf) s).sent = true := by
+  apply dispatch_good
+  intro r hr
+  rcases List.mem_map.mp hr with ⟨m, _, rfl⟩
+  exact every_row_good m s
 
-/-- The managers outside `defectiveMgrs` — discovery, version, entity time, blocking (subscribed or not),
-MUC (with or without rooms), carbons, pubsub and every extension without a `handleStanza` override —
-have no defect cell: they are good at every stanza. -/
-theorem sound_managers_are_good (m : Mgr) (hm : m ∉ defectiveMgrs) (s : Stanza) :
-    (rowOf m).good s = true := by
-  rw [row_good_iff_not_defect]
-  cases m <;> first
-    | (exfalso; exact hm (by decide))
-    | (simp only [Row.defect, rowOf, defectCell]; cases s.enc <;> rfl)
-
-/-- **C08 at full strength for every set of sound managers**: whichever of them are installed, in
-whatever order and multiplicity, every get/set is answered exactly once, to the sender, with its id. -/
-theorem C08_requests_sound_managers (ms : List Mgr) (hms : ∀ m ∈ ms, m ∉ defectiveMgrs) (s : Stanza)
-    (hreq : s.type = .get ∨ s.type = .set) :
+/-- C08 for requests, spelled out -/
+theorem C08_requests (ms : List Mgr) (s : Stanza) (hreq : s.type = .get ∨ s.type = .set) :
     replies (dispatch (ms.map rowOf) s) = 1 ∧
     ∃ r, (dispatch (ms.map rowOf) s).sent = [r] ∧ r.idSame = true ∧ r.to.okFor s.frm = true := by
   apply request_answered_once _ _ _ hreq
   intro r hr
-  rcases List.mem_map.mp hr with ⟨m, hm, rfl⟩
-  exact sound_managers_are_good m (hms m hm) s
+  rcases List.mem_map.mp hr with ⟨m, _, rfl⟩
+  exact every_row_good m s
 
-/-- … and no result/error is ever answered. -/
-theorem C08_responses_sound_managers (ms : List Mgr) (hms : ∀ m ∈ ms, m ∉ defectiveMgrs) (s : Stanza)
-    (hresp : s.type = .result ∨ s.type = .error) :
+/-- C08 for responses, spelled out: no reply, so two endpoints can never bounce errors -/
+theorem C08_responses (ms : List Mgr) (s : Stanza) (hresp : s.type = .result ∨ s.type = .error) :
     replies (dispatch (ms.map rowOf) s) = 0 ∧ (dispatch (ms.map rowOf) s).sent = [] := by
   apply response_never_answered _ _ _ hresp
   intro r hr
-  rcases List.mem_map.mp hr with ⟨m, hm, rfl⟩
-  exact sound_managers_are_good m (hms m hm) s
-
-/-- **C08 for every set of bundled managers, outside the listed defect cells** (`…_partial`: the full
-statement quantifies over all stanzas; what is missing are exactly the stanzas that are a defect cell of an
-installed manager — see section 3, where the full statement is refuted at those cells). -/
-theorem C08_all_managers_partial (ms : List Mgr) (s : Stanza)
-    (hcell : ∀ m ∈ ms, (rowOf m).defect s = false) :
-    answeredRight s (dispatch (ms.map rowOf) s).sent = true := by
-  apply dispatch_good
-  intro r hr
-  rcases List.mem_map.mp hr with ⟨m, hm, rfl⟩
-  exact (row_good_iff_not_defect m s).mpr (hcell m hm)
-
-/-! ## 3. Today's code violates the property: the defect cells are real -/
-
-/- `FullC08` (model file) is the property text for all bundled managers and all stanzas:
-   `∀ ms s, answeredRight s (dispatch (ms.map rowOf) s).sent = true`.
-   `refute ms s h` (Proofs) turns one configuration + stanza that is not answered right into `¬ FullC08`. -/
-
-/-- **Every defect cell is a violation**: with only that manager installed (and the stanza not consumed
-by the request table first) the pipeline does NOT answer right — for every stanza in the cell. -/
-theorem C08_fails_at_every_defect_cell (m : Mgr) (s : Stanza) (hd : (rowOf m).defect s = true)
-    (ht : s.enc = true ∨ tableConsumes s = false) :
-    answeredRight s (dispatch [rowOf m] s).sent = false := by
-  have hg : (rowOf m).good s = false := by rw [good_iff_not_defect, hd]; rfl
-  have hT : (!s.enc && tableConsumes s) = false := by rcases ht with h | h <;> simp [h]
-  simp only [Row.good, Beh.goodFor, goodTF] at hg
-  simp only [dispatch, hT, chain, answeredRight, answeredTF, Bool.false_eq_true, if_false]
-  generalize (rowOf m).run s = b at hg ⊢
-  rcases b with ⟨handled, sent⟩
-  cases handled <;> cases hq : isReq s.type <;> cases hp : isResp s.type <;>
-    simp_all
-  all_goals
-    (rcases sent with _ | ⟨x, _ | ⟨y, l⟩⟩ <;> simp_all [okOne])
-
-/-- default set `[roster, vCard, version, time, discovery]`:
-`<iq type='get' from='juliet@example.net/balcony' id='…'><vCard xmlns='vcard-temp'/></iq>` gets no reply. -/
-theorem C08_defect_vcard_get : ¬ FullC08 :=
-  refute [.roster, .vcard, .version, .entityTime, .discovery]
-    ⟨.get, .other, .fresh, [⟨.vCard, .vcard, false⟩], false⟩ (by decide)
-/-- same with `type='set'` (a stranger "setting" our vCard is silently dropped instead of refused). -/
-theorem C08_defect_vcard_set : ¬ FullC08 :=
-  refute [.roster, .vcard, .version, .entityTime, .discovery]
-    ⟨.set, .other, .fresh, [⟨.vCard, .vcard, false⟩], false⟩ (by decide)
-/-- default set: `<iq type='get' id='…'><query xmlns='jabber:iq:roster'/></iq>` without `from` (server): no reply. -/
-theorem C08_defect_roster_get_none : ¬ FullC08 :=
-  refute [.roster, .vcard, .version, .entityTime, .discovery]
-    ⟨.get, .none, .fresh, [⟨.query, .roster, false⟩], false⟩ (by decide)
-/-- … from the own bare JID -/
-theorem C08_defect_roster_get_ownBare : ¬ FullC08 :=
-  refute [.roster] ⟨.get, .ownBare, .fresh, [⟨.query, .roster, false⟩], false⟩ (by decide)
-/-- … from the own full JID -/
-theorem C08_defect_roster_get_ownFull : ¬ FullC08 :=
-  refute [.roster] ⟨.get, .ownFull, .fresh, [⟨.query, .roster, false⟩], false⟩ (by decide)
-/-- … from another resource of the own account -/
-theorem C08_defect_roster_get_ownOther : ¬ FullC08 :=
-  refute [.roster] ⟨.get, .ownOther, .fresh, [⟨.query, .roster, false⟩], false⟩ (by decide)
-/-- roster `set` from the own full JID is answered with an IQ that has no `to`: it goes to the server,
-not to the resource that asked -/
-theorem C08_defect_roster_set_ownFull : ¬ FullC08 :=
-  refute [.roster] ⟨.set, .ownFull, .fresh, [⟨.query, .roster, false⟩], false⟩ (by decide)
-/-- … same for another resource of the own account -/
-theorem C08_defect_roster_set_ownOther : ¬ FullC08 :=
-  refute [.roster] ⟨.set, .ownOther, .fresh, [⟨.query, .roster, false⟩], false⟩ (by decide)
-/-- archive manager: `<chat xmlns='urn:xmpp:archive' with='x'/>` of type get, any sender: no reply -/
-theorem C08_defect_archive_get_chat : ¬ FullC08 :=
-  refute [.archive] ⟨.get, .other, .fresh, [⟨.chat, .archive, true⟩], false⟩ (by decide)
-theorem C08_defect_archive_set_chat : ¬ FullC08 :=
-  refute [.archive] ⟨.set, .other, .fresh, [⟨.chat, .archive, true⟩], false⟩ (by decide)
-/-- archive manager: `<list xmlns='urn:xmpp:archive'/>` get/set: no reply -/
-theorem C08_defect_archive_get_list : ¬ FullC08 :=
-  refute [.archive] ⟨.get, .other, .fresh, [⟨.list, .archive, false⟩], false⟩ (by decide)
-theorem C08_defect_archive_set_list : ¬ FullC08 :=
-  refute [.archive] ⟨.set, .other, .fresh, [⟨.list, .archive, false⟩], false⟩ (by decide)
-/-- archive manager: `<pref xmlns='urn:xmpp:archive'/>` get/set: no reply -/
-theorem C08_defect_archive_get_pref : ¬ FullC08 :=
-  refute [.archive] ⟨.get, .other, .fresh, [⟨.pref, .archive, false⟩], false⟩ (by decide)
-theorem C08_defect_archive_set_pref : ¬ FullC08 :=
-  refute [.archive] ⟨.set, .other, .fresh, [⟨.pref, .archive, false⟩], false⟩ (by decide)
-/-- bookmark manager: `<query xmlns='jabber:iq:private'><storage xmlns='storage:bookmarks'/></query>` get/set: no reply -/
-theorem C08_defect_bookmark_get : ¬ FullC08 :=
-  refute [.bookmark] ⟨.get, .other, .fresh, [⟨.query, .priv, true⟩], false⟩ (by decide)
-theorem C08_defect_bookmark_set : ¬ FullC08 :=
-  refute [.bookmark] ⟨.set, .other, .fresh, [⟨.query, .priv, true⟩], false⟩ (by decide)
-/-- bookmark manager: any get/set whose id equals the id of the outstanding `setBookmarks` request is swallowed -/
-theorem C08_defect_bookmark_get_pending_id : ¬ FullC08 :=
-  refute [.bookmark] ⟨.get, .other, .bm, [⟨.other, .other, false⟩], false⟩ (by decide)
-theorem C08_defect_bookmark_set_pending_id : ¬ FullC08 :=
-  refute [.bookmark] ⟨.set, .other, .bm, [⟨.other, .other, false⟩], false⟩ (by decide)
-/-- MAM manager: `<fin xmlns='urn:xmpp:mam:2'/>` of type get/set: no reply -/
-theorem C08_defect_mam_get_fin : ¬ FullC08 :=
-  refute [.mam] ⟨.get, .other, .fresh, [⟨.fin, .mam, false⟩], false⟩ (by decide)
-theorem C08_defect_mam_set_fin : ¬ FullC08 :=
-  refute [.mam] ⟨.set, .other, .fresh, [⟨.fin, .mam, false⟩], false⟩ (by decide)
-/-- registration manager: `<query xmlns='jabber:iq:register'/>` get/set from anyone: no reply -/
-theorem C08_defect_registration_get_register : ¬ FullC08 :=
-  refute [.registration] ⟨.get, .other, .fresh, [⟨.query, .register, false⟩], false⟩ (by decide)
-theorem C08_defect_registration_set_register : ¬ FullC08 :=
-  refute [.registration] ⟨.set, .other, .fresh, [⟨.query, .register, false⟩], false⟩ (by decide)
-/-- registration manager: any get/set whose id equals the id of an outstanding registration /
-change-password / delete-account request is swallowed (and clears that request) -/
-theorem C08_defect_registration_get_pending_id : ¬ FullC08 :=
-  refute [.registration] ⟨.get, .other, .reg, [⟨.other, .other, false⟩], false⟩ (by decide)
-theorem C08_defect_registration_set_pending_id : ¬ FullC08 :=
-  refute [.registration] ⟨.set, .other, .reg, [⟨.other, .other, false⟩], false⟩ (by decide)
-/-- RPC manager: `set` with `<query xmlns='jabber:iq:rpc'/>` whose method name is not `Interface.method`: no reply -/
-theorem C08_defect_rpc_set_bad_method : ¬ FullC08 :=
-  refute [.rpc] ⟨.set, .other, .fresh, [⟨.query, .rpc, false⟩], false⟩ (by decide)
-/-- transfer manager: an IQ of type result/error carrying `<open|data|close xmlns='…/ibb'/>` is ANSWERED
-(item-not-found): a reply to a response -/
-theorem C08_defect_transfer_result_ibb_open : ¬ FullC08 :=
-  refute [.transfer] ⟨.result, .other, .fresh, [⟨.openT, .ibb, false⟩], false⟩ (by decide)
-theorem C08_defect_transfer_error_ibb_open : ¬ FullC08 :=
-  refute [.transfer] ⟨.error, .other, .fresh, [⟨.openT, .ibb, false⟩], false⟩ (by decide)
-theorem C08_defect_transfer_result_ibb_data : ¬ FullC08 :=
-  refute [.transfer] ⟨.result, .other, .fresh, [⟨.data, .ibb, false⟩], false⟩ (by decide)
-theorem C08_defect_transfer_error_ibb_data : ¬ FullC08 :=
-  refute [.transfer] ⟨.error, .other, .fresh, [⟨.data, .ibb, false⟩], false⟩ (by decide)
-theorem C08_defect_transfer_result_ibb_close : ¬ FullC08 :=
-  refute [.transfer] ⟨.result, .other, .fresh, [⟨.close, .ibb, false⟩], false⟩ (by decide)
-theorem C08_defect_transfer_error_ibb_close : ¬ FullC08 :=
-  refute [.transfer] ⟨.error, .other, .fresh, [⟨.close, .ibb, false⟩], false⟩ (by decide)
-/-- transfer manager: `get` with `<query xmlns='…/bytestreams'/>`: no reply -/
-theorem C08_defect_transfer_get_bytestreams : ¬ FullC08 :=
-  refute [.transfer] ⟨.get, .other, .fresh, [⟨.query, .bytestreams, false⟩], false⟩ (by decide)
-/-- transfer manager: `get` with `<si xmlns='…/si'/>`: no reply -/
-theorem C08_defect_transfer_get_si : ¬ FullC08 :=
-  refute [.transfer] ⟨.get, .other, .fresh, [⟨.si, .si, false⟩], false⟩ (by decide)
-/-- upload request manager: `<request|slot xmlns='urn:xmpp:http:upload:0'/>` get/set: no reply -/
-theorem C08_defect_uploadRequest_get_request : ¬ FullC08 :=
-  refute [.uploadRequest] ⟨.get, .other, .fresh, [⟨.request, .upload, false⟩], false⟩ (by decide)
-theorem C08_defect_uploadRequest_set_request : ¬ FullC08 :=
-  refute [.uploadRequest] ⟨.set, .other, .fresh, [⟨.request, .upload, false⟩], false⟩ (by decide)
-theorem C08_defect_uploadRequest_get_slot : ¬ FullC08 :=
-  refute [.uploadRequest] ⟨.get, .other, .fresh, [⟨.slot, .upload, false⟩], false⟩ (by decide)
-theorem C08_defect_uploadRequest_set_slot : ¬ FullC08 :=
-  refute [.uploadRequest] ⟨.set, .other, .fresh, [⟨.slot, .upload, false⟩], false⟩ (by decide)
-
-/-! ## 3b. How the statement changes once /verif/fixes/C08-*.diff are applied -/
-
-/-- With the four fix diffs applied (`rowOfFixed`: the nine defective handlers guarded as in the diffs, the
-others unchanged; the driver argument `fixed` ties this model to a patched library the same way), the
-FULL statement holds: every set of bundled managers, every order, every stanza. -/
-theorem C08_holds_after_fixes (ms : List Mgr) (s : Stanza) :
-    answeredRight s (dispatch (ms.map rowOfFixed) s).sent = true := by
-  apply dispatch_good
-  intro r hr
   rcases List.mem_map.mp hr with ⟨m, _, rfl⟩
-  exact fixed_good m s
+  exact every_row_good m s
+
+/-- the only reply the fallback ever adds is an error addressed to the sender with the request's id, and it
+is added exactly when no extension claimed a get/set -/
+theorem fallback_reply_shape (exts : List Row) (s : Stanza) (h : (dispatch exts s).by_ = .fallback)
+    (hreq : isReq s.type = true) (hch : (chain exts s).sent = []) :
+    (dispatch exts s).sent = [⟨.error, .sender, true⟩] := by
+  have hnresp := isReq_not_isResp hreq
+  have ht : tableConsumes s = false := by simp [tableConsumes, hnresp]
+  simp only [dispatch, ht, Bool.and_false, Bool.false_eq_true, if_false] at h ⊢
+  cases hb : (chain exts s).handledBy with
+  | some m => simp [hb] at h
+  | none => simp [hreq, hch, fallbackReply]
 
 /-! ## 4. The model's tables are the source's (regenerated by translators/iq_handlers.py on every run) -/
 
@@ -275,17 +136,22 @@ example : dispatch defaultSet ⟨.result, .other, .table, [⟨.vCard, .vcard, fa
 -- garbage type, nobody claims it: stream error, no reply
 example : dispatch defaultSet ⟨.garbage, .other, .fresh, [], false⟩ = ⟨.rejected, [], true⟩ := by decide
 -- the first claiming extension decides: vCard manager before / after the archive manager
-example : (dispatch [rowOf .vcard, rowOf .archive] ⟨.get, .other, .fresh, [⟨.vCard, .vcard, false⟩, ⟨.chat, .archive, true⟩], false⟩).by_
+example : (dispatch [rowOf .vcard, rowOf .archive] ⟨.result, .other, .fresh, [⟨.vCard, .vcard, false⟩, ⟨.chat, .archive, true⟩], false⟩).by_
       = .ext .vcard ∧
-    (dispatch [rowOf .archive, rowOf .vcard] ⟨.get, .other, .fresh, [⟨.vCard, .vcard, false⟩, ⟨.chat, .archive, true⟩], false⟩).by_
+    (dispatch [rowOf .archive, rowOf .vcard] ⟨.result, .other, .fresh, [⟨.vCard, .vcard, false⟩, ⟨.chat, .archive, true⟩], false⟩).by_
       = .ext .archive := by decide
--- sound managers exist in quantity (hypothesis of C08_*_sound_managers)
-example : ∀ m ∈ [Mgr.discovery, .version, .entityTime, .blocking, .blockingSub, .muc, .mucRoom, .carbon,
-    .carbonV2, .pubsub, .mix, .httpUpload], m ∉ defectiveMgrs := by decide
--- a defect cell and a non-defect cell of the same manager (hypothesis of C08_all_managers_partial /
--- C08_fails_at_every_defect_cell)
-example : (rowOf .roster).defect ⟨.get, .none, .fresh, [⟨.query, .roster, false⟩], false⟩ = true
-    ∧ (rowOf .roster).defect ⟨.set, .none, .fresh, [⟨.query, .roster, false⟩], false⟩ = false
-    ∧ (rowOf .roster).defect ⟨.get, .other, .fresh, [⟨.query, .roster, false⟩], false⟩ = false := by decide
+-- former defect cells now answered: vCard get from a stranger (fallback error), roster push from another own
+-- resource (result addressed to it), IBB data echoed in an error (no reply), RPC call with a malformed name (error)
+example : dispatch defaultSet ⟨.get, .other, .fresh, [⟨.vCard, .vcard, false⟩], false⟩
+      = ⟨.fallback, [⟨.error, .sender, true⟩], false⟩ := by decide
+example : dispatch defaultSet ⟨.set, .ownOther, .fresh, [⟨.query, .roster, false⟩], false⟩
+      = ⟨.ext .roster, [⟨.result, .sender, true⟩], false⟩ := by decide
+example : dispatch [rowOf .transfer] ⟨.error, .other, .fresh, [⟨.data, .ibb, false⟩, ⟨.error, .other, false⟩], false⟩
+      = ⟨.fallback, [], false⟩ := by decide
+example : dispatch [rowOf .rpc] ⟨.set, .other, .fresh, [⟨.query, .rpc, false⟩], false⟩
+      = ⟨.ext .rpc, [⟨.error, .sender, true⟩], false⟩ := by decide
+-- hypothesis of fallback_reply_shape
+example : (dispatch defaultSet ⟨.get, .none, .fresh, [⟨.other, .other, false⟩], false⟩).by_ = .fallback
+    ∧ (chain defaultSet ⟨.get, .none, .fresh, [⟨.other, .other, false⟩], false⟩).sent = [] := by decide
 
 end Qx.C08
